@@ -157,6 +157,7 @@ def monitored_call(fn, args=(), kwargs=None, *, seed=None, timeout=20.0, label=N
     arg_arrays = arrays_of((list(args), kwargs))
     rep.n_arg_arrays = len(arg_arrays)
     before = [a.tobytes() for a in arg_arrays]
+    fp_before = fingerprint((list(args), kwargs))       # also sees an attribute re-bound to a new array (x.signal = …)
     flags = [a.flags.writeable for a in arg_arrays]
     for a in arg_arrays:
         try:
@@ -185,6 +186,10 @@ def monitored_call(fn, args=(), kwargs=None, *, seed=None, timeout=20.0, label=N
     changed = [i for i, (x, y) in enumerate(zip(before, after)) if x != y]
     if changed:
         rep.violations.append((f"{prefix}:operand-mutated:{label}", f"{label} changed the sample data of {len(changed)} argument array(s)"))
+    else:
+        d = fp_diff(fp_before, fingerprint((list(args), kwargs)), "arguments")
+        if d:
+            rep.violations.append((f"{prefix}:operand-mutated:{label}", f"{label} changed its arguments: {d}"))
     d = snapshot_diff(g0, gv_snapshot())
     if d:
         rep.violations.append((f"{prefix}:gv-mutated:{label}", f"{label} modified gv: {' '.join(d)}"))
